@@ -550,8 +550,15 @@ def mutate_text(data, kind, rng):
 
         if digits:
             pos = rng.choice(digits)
+            # (The analogue of length-field tampering for text codecs:
+            # magnitudes and exponents far beyond what the text is long.)
             data[pos:pos + 1] = rng.choice([b'9' * 400, b'-', b'1e999',
-                                            b'0x', b'NaN', b''])
+                                            b'0x', b'NaN', b'',
+                                            b'99999999', b'999999999',
+                                            b'1E999999999', b'1e-999999999',
+                                            b'9' * 20, b'9' * 5000,
+                                            b'0' * 3000 + b'1',
+                                            b'.' + b'0' * 3000 + b'1'])
 
         return bytes(data)
 
